@@ -39,7 +39,11 @@ def tie_skeleton(ctx, broken, specs_faults, name, need_det_ok=True, extra_valid=
             continue
         inputs = S.c_inputs(P)
         detok = f"(det_ok {inputs})" if (P["opts"]["det"] and need_det_ok and not P["crashed"]) else "true"
-        if extra_valid == "noisy" and not P["crashed"] and not P["target_fault"]:
+        if callable(extra_valid):
+            ex = extra_valid(tr, P)
+            if ex:
+                detok = f"({detok} && {ex})"
+        elif extra_valid == "noisy" and not P["crashed"] and not P["target_fault"]:
             fin_in = S.c_final(P)
             ini = " ".join(S.c_inputs_parts(P)[:5])
             detok = (f"({detok} && noisy_u_ok {S.c_opts(P['opts'])} (init_phase {ini}) {S.c_inputs_parts(P)[5]} "
@@ -49,7 +53,7 @@ def tie_skeleton(ctx, broken, specs_faults, name, need_det_ok=True, extra_valid=
     ok = ctx.oblige(f"trace_shape:{name}", "correspondence", not shape_errors, str(shape_errors[:3]))
     if not ok:
         broken.append((f"trace_shape:{name}", f"{len(shape_errors)} traces do not have the modelled shape: {shape_errors[:2]}"))
-    okc, bad, log = core.run_cases(f"skel_{ctx.pid}_{name}", ["PV.Model.Val", "PV.Model.Skeleton", "PV.Model.SkeletonValid", "PV.Model.SkeletonNoisy"],
+    okc, bad, log = core.run_cases(f"skel_{ctx.pid}_{name}", ["PV.Model.Val", "PV.Model.Skeleton", "PV.Model.SkeletonValid", "PV.Model.SkeletonNoisy"] + list(getattr(ctx, "extra_requires", [])),
                                    "(val * bool) * xval", "fun c => snd (fst c) && xval_ok (fst (fst c)) (snd c)", cases, shard=3)
     good = ctx.oblige(f"correspondence:skeleton:{name}", "correspondence", okc and not bad,
                       f"{len(bad)} of {len(cases)} real runs differ from the model; " + log[-400:])
@@ -390,3 +394,37 @@ def truncate_search(ctx, mon, extra_specs=()):
         return False
     out = [(tr, None) for tr in S.traces(plan, "trunc")]
     return apply_monitor(ctx, out, mon) > 0
+
+
+# ------------------------------------------------------------------------------- provenance (C01 / C02)
+
+def c_bnds(v):
+    return core.clist(["None" if (x is None or math.isinf(x)) else f"(Some {core.cq(x)})" for x in v])
+
+
+def noisy_expr(P):
+    ini = " ".join(S.c_inputs_parts(P)[:5])
+    return f"noisy_u_ok {S.c_opts(P['opts'])} (init_phase {ini}) {S.c_inputs_parts(P)[5]}"
+
+
+def provenance_expr(tr, P, feas_table=None):
+    """Coq boolean: the premises of C01_internal_points_in_box / C02_no_infeasible_call hold on this run:
+    each recorded filter call's box is within the hard internal box, every recorded output row is in the hard box,
+    every evaluated point is the start or a row of a recorded output; + the noisy side condition."""
+    if P["crashed"]:
+        return None
+    prob = tr["problem"]
+    LB, UB = c_bnds(prob["lb"]), c_bnds(prob["ub"])
+    fe = [e for e in tr["events"] if e[0] == "filter" and e[1] == "bads"]
+    F = core.clist([core.cqmat(e[8]) for e in fe if e[8]])
+    boxes = []
+    seen = set()
+    for e in fe:
+        key = (tuple(e[4]), tuple(e[5]))
+        if key not in seen:
+            seen.add(key)
+            boxes.append(f"box_withinb {c_bnds(e[4])} {c_bnds(e[5])} {LB} {UB}")
+    parts = S.c_inputs_parts(P)
+    expr = (f"(let F := {F} in forallb (fun St => forallb (in_boxb {LB} {UB}) St) F && in_boxb {LB} {UB} {core.cqlist(prob['u0'])} && "
+            f"prov_okb {core.cqlist(prob['u0'])} F (eval_points {parts[3]} {parts[5]}) && " + " && ".join(boxes or ["true"]) + f" && {noisy_expr(P)})")
+    return expr
